@@ -2,6 +2,7 @@ package server
 
 import (
 	"context"
+	"net/netip"
 	"slices"
 	"sync"
 	"time"
@@ -46,7 +47,7 @@ func VH_c01_server_fanout() {
 	t2 := vEstablished(s, vNeighbor(5, 65000, 65000, fams), fams)
 	c3 := vNeighbor(6, 65000, 65000, fams)
 	c3.RouteReflector.Config.RouteReflectorClient = true
-	c3.RouteReflector.Config.RouteReflectorClusterId, c3.RouteReflector.State.RouteReflectorClusterId = vAddr4(1, 1, 1, 1), vAddr4(1, 1, 1, 1)
+	c3.RouteReflector.State.RouteReflectorClusterId = vAddr4(1, 1, 1, 1) // no explicit cluster id: the effective one defaults to the router id
 	t3 := vEstablished(s, c3, fams) // route-reflector client: iBGP-learned routes are reflected to it
 	peers := []*peer{a, b, t1, t2, t3}
 	views := make([]c01view, len(peers))
@@ -71,6 +72,11 @@ func VH_c01_server_fanout() {
 			if src == b {
 				u := m.Body.(*bgp.BGPUpdate)
 				u.PathAttributes = append(u.PathAttributes, bgp.NewPathAttributeLocalPref(100))
+				if vBool("cluster_list_has_local_id") {
+					cl, _ := bgp.NewPathAttributeClusterList([]netip.Addr{vAddr4(9, 9, 9, 9), vAddr4(1, 1, 1, 1)})
+					oi, _ := bgp.NewPathAttributeOriginatorId(vAddr4(8, 8, 8, 8))
+					u.PathAttributes = append(u.PathAttributes, oi, cl)
+				}
 			}
 		}
 		s.handleFSMMessage(src, &fsmMsg{MsgType: fsmMsgBGPMessage, MsgData: m, timestamp: time.Unix(int64(2000+i), 0)})
@@ -87,6 +93,9 @@ func VH_c01_server_fanout() {
 		want := best != nil && best.GetSource().Address != p.fsm.pConf.ReadOnly().State.NeighborAddress
 		if want && p.isIBGPPeer() && best.IsIBGP() && !p.isRouteReflectorClient() {
 			want = false // iBGP-learned routes go to iBGP peers only by reflection to clients
+		}
+		if want && p.isRouteReflectorClient() && slices.Contains(best.GetClusterList(), vAddr4(1, 1, 1, 1)) {
+			want = false // RFC 4456: the local cluster id is already in the CLUSTER_LIST
 		}
 		if want && !p.isIBGPPeer() && slices.Contains(best.GetAsList(), p.AS()) {
 			want = false
@@ -105,6 +114,84 @@ func VH_c01_server_fanout() {
 				vReach("reflected")
 			}
 			vReach("advertised")
+		}
+	}
+	if best == nil {
+		vReach("empty")
+	}
+}
+
+// C01 (twin sources): two route-reflector clients announce the prefix with byte-identical path
+// attributes (or one of two attribute variants), withdraw it and go down, in every order. When the
+// best path moves from one client to the other nothing in the attributes changes - only the source
+// does - and still the new source has to lose the route reflected to it and the old one has to be
+// told the new best. A non-client iBGP peer and an eBGP peer watch as well.
+func VH_c01_server_twins() {
+	fams := []bgp.Family{bgp.RF_IPv4_UC}
+	s := vServer(65000, fams)
+	mk := func(i byte) *peer {
+		c := vNeighbor(i, 65000, 65000, fams)
+		c.RouteReflector.Config.RouteReflectorClient = true
+		c.RouteReflector.State.RouteReflectorClusterId = vAddr4(1, 1, 1, 1)
+		return vEstablished(s, c, fams)
+	}
+	c1, c2 := mk(2), mk(3)
+	t1 := vEstablished(s, vNeighbor(4, 65003, 65000, fams), fams)
+	t2 := vEstablished(s, vNeighbor(5, 65000, 65000, fams), fams)
+	peers := []*peer{c1, c2, t1, t2}
+	up := []bool{true, true, true, true}
+	views := make([]c01view, len(peers))
+	prefix := vPrefix4(10, 1, 0, 0, 16)
+	steps := vParam("steps")
+	for i := 0; i < steps; i++ {
+		k := 0
+		if vBool("from_c2") {
+			k = 1
+		}
+		if !up[k] {
+			continue
+		}
+		src := peers[k]
+		switch vChoice("op", 3) {
+		case 0:
+			asn := uint32(7)
+			if vBool("other_attributes") {
+				asn = 8
+			}
+			m := vUpdate4(prefix, false, []uint32{asn}, vAddr4(10, 0, 0, 9))
+			u := m.Body.(*bgp.BGPUpdate)
+			u.PathAttributes = append(u.PathAttributes, bgp.NewPathAttributeLocalPref(100))
+			s.handleFSMMessage(src, &fsmMsg{MsgType: fsmMsgBGPMessage, MsgData: m, timestamp: time.Unix(int64(2000+i), 0)})
+		case 1:
+			s.handleFSMMessage(src, &fsmMsg{MsgType: fsmMsgBGPMessage, MsgData: vUpdate4(prefix, true, nil, vAddr4(10, 0, 0, 9)), timestamp: time.Unix(int64(2000+i), 0)})
+		case 2:
+			vTransition(s, src, bgp.BGP_FSM_IDLE, fsmReadFailed)
+			up[k] = false
+			views[k] = c01view{}
+		}
+		for j, p := range peers {
+			if up[j] {
+				c01drain(p, &views[j], prefix.String())
+			}
+		}
+	}
+	var best *table.Path
+	if l := s.globalRib.GetBestPathList(table.GLOBAL_RIB_NAME, 0, fams); len(l) > 0 {
+		vAssert(len(l) == 1, "more than one best path for one prefix")
+		best = l[0]
+	}
+	for j, p := range peers {
+		if !up[j] {
+			continue
+		}
+		want := best != nil && best.GetSource().Address != p.fsm.pConf.ReadOnly().State.NeighborAddress
+		vAssert(views[j].have == want, "a peer's view differs from the export of the current best path (stale or missing route) after the best path moved between sources with identical attributes")
+		if want && views[j].have {
+			vAssert(views[j].path.GetSource() == best.GetSource(), "the route a peer holds is not the current best path")
+			vAssert(slices.Equal(views[j].path.GetAsList()[len(views[j].path.GetAsList())-1:], best.GetAsList()), "the AS_PATH a peer holds does not end in the best path's")
+			if j < 2 {
+				vReach("twin_holds_other")
+			}
 		}
 	}
 	if best == nil {
